@@ -794,7 +794,7 @@ func (eng *Engine) constGlobal(g *ssa.Global) *ssa.Const {
 	return eng.constGlobals[g]
 }
 
-var calledRe = regexp.MustCompile(`called\(([A-Za-z0-9_]+)\)`)
+var calledRe = regexp.MustCompile(`called\(([A-Za-z0-9_]+)(?:\s*,\s*([0-9]+))?\)`)
 
 // calledNames: callee names used in called(...) anywhere in the function's contract.
 func (e *Enc) calledNames() []string {
@@ -805,9 +805,14 @@ func (e *Enc) calledNames() []string {
 	var out []string
 	add := func(text string) {
 		for _, m := range calledRe.FindAllStringSubmatch(text, -1) {
-			if !seen[m[1]] {
-				seen[m[1]] = true
-				out = append(out, m[1])
+			n := m[1]
+			if m[2] != "" {
+				// called(name, k): the k-th call of name (source order) has been executed
+				n += "#" + m[2]
+			}
+			if !seen[n] {
+				seen[n] = true
+				out = append(out, n)
 			}
 		}
 	}
